@@ -100,10 +100,12 @@ PROPS = {
     ),
     "C02": dict(
         modules=[P + "C02"],
-        theorems=[P + "C02." + t for t in ("refines_atomic_lock", "fresh_object_inv", "conservation", "try_refused_only_when_full", "unlock_at_most_once", "unlock_exactly_once", "linearizable_real_time", "seq_trylock_atomic", "seq_unlock_atomic", "seq_reachable_recInv")]
+        theorems=[P + "C02." + t for t in ("refines_atomic_lock", "fresh_object_inv", "conservation", "try_refused_only_when_full", "unlock_at_most_once", "unlock_exactly_once", "linearizable_real_time_partial", "handback_window_runs", "handback_window_refutes_strict", "seq_trylock_atomic", "seq_unlock_atomic", "seq_reachable_recInv")]
                  + ["Ldlm.Table.sim_obj", "Ldlm.Table.refines_obj", "Ldlm.Table.stepObj_inv", "Ldlm.Core.unlock_kills", "Ldlm.Core.Dead.forever"],
+        status={P + "C02.linearizable_real_time_partial": "partial: a blocking Lock that gives up after Release has handed it the unit is linearized as grant + release inside its interval (K21)",
+                P + "C02.handback_window_runs": "witness schedule (K21)", P + "C02.handback_window_refutes_strict": "refutation witness (K21): the strict reading - a failed acquisition has no effect at all - is false"},
         streams=[CONC],
-        level_text="SEQUENTIAL (M2, every reachable state and every continuation of the history - requests, expiries, session ends, collections, restarts): after a successful Unlock of (name, key) the pair is never held again and every further Unlock with it fails (unlock_exactly_once, by the invariant 'a dead key stays dead'). M1 has one action per critical section of lock.go/manager.go; every action emits the atomic-specification operations that take effect at it. Proved for EVERY schedule of any number of threads on a lock object: the emitted operations, in schedule order, are an execution of the atomic counting lock (forward simulation lifted to whole schedules) - each inside its call's interval, i.e. linearizability - under the side condition that a failing Unlock does not present a key still in the middle of being granted (a key no client has been told). Conservation (units = live keys + grants in progress <= size), 'refused only when full' and 'unlocked at most once' are proved with no hypothesis. REAL-TIME ORDER (M1t = the same critical sections run by threads with a program counter, invocation and return events): for EVERY schedule of any number of TryLock/Lock/Unlock calls, refused and cancelled ones included, every specification operation is attributed to a call that has been invoked and has not returned (for a hand-over: to the waiter at the head of the queue, whose call is pending), every call returns the result of its operation, and the operations in trace order are a run of the atomic counting lock (linearizable_real_time) - linearizability with explicit linearization points, real-time order included. Tied to the code by exploring all schedules up to a preemption bound (+ random) of 2-4-call programs on the instrumented real code, with a brute-force linearizability checker and capacity probes on every outcome, and by CALL-HISTORY VALIDATION of M1t: every distinct invocation/return history of the explored schedules is piped to the Lean driver (linthreads), which decides whether M1t has a schedule with these calls, this real-time order and these results (0 only through the critical sections, c only by giving up, r only by refusal).",
+        level_text="SEQUENTIAL (M2, every reachable state and every continuation of the history - requests, expiries, session ends, collections, restarts): after a successful Unlock of (name, key) the pair is never held again and every further Unlock with it fails (unlock_exactly_once, by the invariant 'a dead key stays dead'). M1 has one action per critical section of lock.go/manager.go; every action emits the atomic-specification operations that take effect at it. Proved for EVERY schedule of any number of threads on a lock object: the emitted operations, in schedule order, are an execution of the atomic counting lock (forward simulation lifted to whole schedules) - each inside its call's interval, i.e. linearizability - under the side condition that a failing Unlock does not present a key still in the middle of being granted (a key no client has been told). Conservation (units = live keys + grants in progress <= size), 'refused only when full' and 'unlocked at most once' are proved with no hypothesis. REAL-TIME ORDER (M1t = the same critical sections run by threads with a program counter, invocation and return events): for EVERY schedule of any number of TryLock/Lock/Unlock calls, refused and cancelled ones included, every specification operation is attributed to a call that has been invoked and has not returned (for a hand-over: to the waiter at the head of the queue, whose call is pending), every call returns the result of its operation, and the operations in trace order are a run of the atomic counting lock (linearizable_real_time_partial) - linearizability with explicit linearization points, real-time order included. Tied to the code by exploring all schedules up to a preemption bound (+ random) of 2-4-call programs on the instrumented real code, with a brute-force linearizability checker and capacity probes on every outcome, and by CALL-HISTORY VALIDATION of M1t: every distinct invocation/return history of the explored schedules is piped to the Lean driver (linthreads), which decides whether M1t has a schedule with these calls, this real-time order and these results (0 only through the critical sections, c only by giving up, r only by refusal).",
         level_note="The refinement hypothesis AllSide excludes guessing a key before it was returned (unobservable to clients). The tie is outcome monitoring plus call-history validation of M1t on explored schedules (inclusion of the implementation's histories in the model's), not a step-by-step comparison of critical sections. D14/W1 (double-unlock window) was found by this check and repaired (fix: 066861c); the model has Unlock as one critical section accordingly. x/sync/semaphore is modelled (unit weights), not verified.",
         technique="Lean 4 proof (forward simulation to an atomic spec, lifted to all schedules by induction) + controlled-interleaving exploration with a linearizability monitor",
         trusted=CONC_TRUST,
